@@ -648,7 +648,8 @@ def run_histories(ctx, regspecs, dist, samples):
         'advan_trans': _hist([f"ADVAN{i['advan']} TRANS{i['trans']}" for i in infos]),
         'ncomp_hist': _hist([i['ncomp'] for i in infos]),
         'steps_applied': dict(sorted(steps_ok.items())), 'steps_refused': dict(sorted(steps_failed.items())),
-        'with_des': sum(1 for i in infos if i['n_des']), 'reread_failed': sum(1 for i in infos if 'reread_exc' in i),
+        'with_des': sum(1 for i in infos if i['n_des']),
+        'stale_rate_names_outside_$MODEL (treated as ordinary variables)': sum(1 for i in infos if i.get('stale_k')), 'reread_failed': sum(1 for i in infos if 'reread_exc' in i),
         'explained(28 missing K,30 no $DES)': hist_counts(verdicts, 28, 31), 'explained(44 trans not written,46 ratio denom one)': hist_counts(verdicts, 44, 48),
         'inconclusive': hist_counts(verdicts, 1000, 2000),
     }
